@@ -550,6 +550,7 @@ static void cc1(void) {
     return;
   }
 
+  convert_preprocessed_tokens(tok);
   Obj *prog = parse(tok);
 
   // Open a temporary output buffer.
